@@ -35,7 +35,8 @@ def series_pair(draw, max_len=8, ndim=1, min_len=1, regimes=('L', 'L', 'F', 'S')
     if regime != 'S':
         hi = max_len
         if draw(st.integers(0, 23)) == 0:
-            hi = 4 * max_len     # occasional long series: code paths that only engage beyond the usual sizes
+            hi = max(4 * max_len, 64)     # occasional long series: code paths that only engage beyond the usual sizes
+            # (blocked loops, buffer growth, band rows longer than some constant)
             l1 = draw(st.integers(max_len + 1, hi))
         else:
             l1 = draw(st.integers(min_len, max_len))
